@@ -206,6 +206,11 @@ fn generate_e(seed: u64, quick: bool) -> Value {
                 let v = g.value_expr(2);
                 items.push(json!({"forms": [format!("(display \"<<{}>>\")", m1), format!("(display {})", v), format!("(display \"<<{}>>\")", m2)], "markers": [m1, m2], "kind": "display-value"}));
             }
+            3 if g.rng.chance(1, 2) => {
+                // an expression whose value nobody displays: it is evaluated and nothing is written
+                let v = *g.rng.pick(&["(+ 1 2)", "'sym", "\"a string\"", "(list 1 2)", "(vector 1 2)", "car", "(lambda (x) x)", "#t", "(if #f #f)", "1/2"]);
+                items.push(json!({"forms": [v], "markers": [], "kind": "bare-value"}));
+            }
             3 => items.push(json!({"forms": ["(newline)"], "markers": [], "kind": "newline"})),
             4 => {
                 let m = g.marker();
@@ -271,6 +276,7 @@ fn generate_e(seed: u64, quick: bool) -> Value {
         "cut": g.rng.below(100_000),
         "cwd": cwd,
         "spelling": spelling,
+        "file_name": if g.rng.chance(1, 4) { *g.rng.pick(&["my program.scm", "прог.scm", "main", "a.b.scm", "MAIN.SCM"]) } else { "main.scm" },
     })
 }
 
@@ -443,7 +449,9 @@ fn execute_e(case: Value) -> RunResult {
         )
         .unwrap();
     }
-    let file = prog.join("main.scm");
+    // the program file's name is the user's business: spaces, other scripts, no extension
+    let fname = case["file_name"].as_str().unwrap_or("main.scm").to_string();
+    let file = prog.join(&fname);
     let mut text_bytes = program_text(&case).into_bytes();
     let file_fault = case["file_fault"].as_str().unwrap_or("none").to_string();
     // a path through a directory that does not exist reaches no file, whatever lies beyond
@@ -478,15 +486,15 @@ fn execute_e(case: Value) -> RunResult {
     };
     let abs = file.to_string_lossy().to_string();
     let given: String = match (case["cwd"].as_str().unwrap_or("progdir"), case["spelling"].as_str().unwrap_or("absolute")) {
-        ("progdir", "relative") => "main.scm".into(),
-        ("progdir", "dot") => "./main.scm".into(),
-        ("progdir", "dotdot") => "../prog/main.scm".into(),
+        ("progdir", "relative") => fname.clone(),
+        ("progdir", "dot") => format!("./{}", fname),
+        ("progdir", "dotdot") => format!("../prog/{}", fname),
         // the operating system does not find a file through a directory that does not exist
-        ("progdir", "through-missing-dir") => "no-such-dir/../main.scm".into(),
-        ("parent", "relative") => "prog/main.scm".into(),
-        ("parent", "dot") => "./prog/main.scm".into(),
-        ("parent", "dotdot") => "prog/../prog/main.scm".into(),
-        ("decoy", "relative") => "../prog/main.scm".into(),
+        ("progdir", "through-missing-dir") => format!("no-such-dir/../{}", fname),
+        ("parent", "relative") => format!("prog/{}", fname),
+        ("parent", "dot") => format!("./prog/{}", fname),
+        ("parent", "dotdot") => format!("prog/../prog/{}", fname),
+        ("decoy", "relative") => format!("../prog/{}", fname),
         ("root", "relative") => abs.trim_start_matches('/').to_string(),
         _ => abs.clone(),
     };
@@ -690,7 +698,7 @@ fn execute_e(case: Value) -> RunResult {
         .map(|a| a.iter().map(|i| i["kind"].as_str().unwrap_or("").to_string()).collect::<Vec<_>>().join(","))
         .unwrap_or_default();
     res.sched_hash = fnv64(
-        format!("{}|{}|{}|{}|{}|{}", kinds, case["cwd"], case["spelling"], case["crlf"], case["final_newline"], file_fault).as_bytes(),
+        format!("{}|{}|{}|{}|{}|{}|{}", kinds, case["cwd"], case["spelling"], case["crlf"], case["final_newline"], file_fault, case["file_name"]).as_bytes(),
     );
     res.state_hashes.push(fnv64(&child.stdout));
     res.steps = case["items"].as_array().map(|a| a.len() as u64).unwrap_or(0);
